@@ -852,3 +852,15 @@ package geom
 //@   ensures loD(b1, 0) == loD(b2, 0) && loD(b1, 1) == loD(b2, 1) && loD(b1, 2) == loD(b2, 2) && loD(b1, 3) == loD(b2, 3)
 //@   ensures hiD(b1, 0) == hiD(b2, 0) && hiD(b1, 1) == hiD(b2, 1) && hiD(b1, 2) == hiD(b2, 2) && hiD(b1, 3) == hiD(b2, 3)
 //@   modifies *b1, *b2, b1.min[0:cap(b1.min)], b1.max[0:cap(b1.max)], b2.min[0:cap(b2.min)], b2.max[0:cap(b2.max)]
+
+// ---------------------------------------------------------------------------
+// Coord.Equal over the reals (no NaN), as used by the 2D distance code with layout XY
+
+//@ func Coord.Equal
+//@   floats real
+//@   requires strideOf(layout) >= 0 && len(c) >= strideOf(layout) && len(other) >= strideOf(layout)
+//@   ensures res <==> forall k int :: 0 <= k && k < strideOf(layout) ==> c[k] == other[k]
+//@   modifies nothing
+//@   loop 1:
+//@     invariant numOrds == strideOf(layout)
+//@     invariant forall k int :: 0 <= k && k < idx ==> c[k] == other[k]
